@@ -117,6 +117,7 @@ def roundTrip (fix : Bool) (sec : Option Str) (name v2 : Str) (opts : List (Str 
 /-- `lm variant loc name secs` / `sp loc name secs`: Stack.get through LocationMatcher / StartingPathMatcher;
 `ms variant loc secs` / `ss loc secs`: the sections they yield (id>extra_path);
 `it loc names`: `_iter_for_location_by_parts`; `uq v`: unquote; `bn v`: basename; `jn a b`: join;
+`br loc`: the branch name a LocationMatcher derives from the location (segment parameter or basename);
 `cq 0|1 v`: `_quote` with list_values off/on; `cq s|sfix v`: `IniFileStore.quote` (as is / with the blank fix); `ld content`: load a file; `sl content`: its lines;
 `pv x lines`: one value (+ following lines); `wt`: the whitespace / line-break tables (all code points);
 `rt s|sfix sec name v2 opts`: the whole round trip, two generations -/
@@ -124,9 +125,11 @@ def handle : List String → String
   | ["lm", v, loc, name, secs] =>
     match cutVariant v, decStr loc, decStr name, decSections secs with
     | some v, some loc, some name, some rs =>
-      match splitStore rs with
-      | some (nn, ps) => showRes (stackGet (locSecs v nn ps loc) name)
-      | none => "G"
+      match splitStore rs, segBranch loc with
+      | _, .invalid => "E:InvalidURL"
+      | _, .outside => "G"
+      | some (nn, ps), _ => showRes (stackGet (locSecs v nn ps loc) name)
+      | none, _ => "G"
     | _, _, _, _ => "bad-op"
   | ["sp", loc, name, secs] =>
     match decStr loc, decStr name, decSections secs with
@@ -138,9 +141,11 @@ def handle : List String → String
   | ["ms", v, loc, secs] =>
     match cutVariant v, decStr loc, decSections secs with
     | some v, some loc, some rs =>
-      match splitStore rs with
-      | some (nn, ps) => showSecs (locSecs v nn ps loc)
-      | none => "G"
+      match splitStore rs, segBranch loc with
+      | _, .invalid => "E:InvalidURL"
+      | _, .outside => "G"
+      | some (nn, ps), _ => showSecs (locSecs v nn ps loc)
+      | none, _ => "G"
     | _, _, _ => "bad-op"
   | ["ss", loc, secs] =>
     match decStr loc, decSections secs with
@@ -160,6 +165,14 @@ def handle : List String → String
   | ["uq", v] =>
     match decStr v with
     | some v => encStr (unquote v)
+    | none => "bad-op"
+  | ["br", v] =>
+    match decStr v with
+    | some v =>
+      match segBranch v with
+      | .invalid => "E:InvalidURL"
+      | .outside => "G"
+      | _ => encStr (branchOf v)
     | none => "bad-op"
   | ["bn", v] =>
     match decStr v with
